@@ -1,12 +1,17 @@
 /-
 C07 — decoding can be suspended and resumed anywhere without changing the result.
-Proved here, about the L0 bit-stream access functions every model of the decoder reads its input
-through: reading a field is monotone in the available input — once enough bytes have arrived for a
-read to succeed, it returns the same value however many more bytes arrive later, and a read that
-fails for lack of input changes nothing. This is the lemma on which schedule independence of the
-logical decoder rests (DESIGN.md §7 C07); the simulation of the real automaton by the logical one
-is established on runs by the correspondence/oracle legs (every single cut point and byte-wise
-feeding for short streams, random partitions and output grants otherwise, flat and ring).
+Three layers, all about the hand model of `decompress_with_limit` (`Model.Core`, tied to the code by
+the per-call replay `ICALL`):
+ 1. L0: reading a field of the bit stream is monotone in the available input (`bitsAt_mono`, …).
+ 2. Runs of the automaton: a run that stops starved / for lack of room reaches, when resumed over
+    more input / a larger window, what the uninterrupted run reaches — every state, flat and ring.
+ 3. Calls: `decompress` called twice — or any number of times, with any chunks and any non-shrinking
+    output grants — reports what `decompress` called once on all the input reports: status, buffer,
+    counts, registers; for EVERY input, valid or not. With C03: valid raw and zlib streams decode to
+    the specified bytes under every such schedule.
+Not proved (compared on runs by the correspondence / oracle legs): a ring window handed back to its
+start between calls, a flags word that changes between calls, shrinking windows, the streaming
+wrapper `inflate()` on top (C13's model), agreement across buffer modes for valid streams.
 -/
 import MinizProof.Spec.Inflate
 import MinizProof.Lemmas.CoreGrow
@@ -214,6 +219,30 @@ theorem valid_stream_under_any_schedule (flags : Nat) (calls : List (Array UInt8
   obtain ⟨h1, h2, h3, h4, _⟩ := any_number_of_calls_equal_one_call flags 0 calls {} out 0 #[] c g Bnd_fresh hgeo hmono hsus last hlast
   obtain ⟨o1, o2, o3, o4⟩ := C03.valid_raw_stream_decodes_one_shot {} (#[] ++ catChunks ((c, g) :: calls)) out 0
     (0 + lastGrant ((c, g) :: calls) - 0) flags maxDist res rfl ⟨rfl, rfl, rfl⟩ hflat hz hstop (Nat.zero_le _) hspec hroom
+  refine ⟨by rw [← h1]; exact o1, by rw [← h3]; exact o2, ?_, fun i hi => by rw [← h2]; exact o4 i hi⟩
+  rw [← h4 (by rw [o1]; decide)]; exact o3
+
+open Model.Core in
+/-- The same for the zlib format: header, body and the Adler-32 trailer may be cut anywhere; the
+    per-call checksums compose to the checksum the trailer is compared with. -/
+theorem valid_zlib_stream_under_any_schedule (flags : Nat) (calls : List (Array UInt8 × Nat)) (out : Array UInt8)
+    (c : Array UInt8) (g maxDist : Nat) (zr : Spec.ZInflated)
+    (hflat : hasFlag flags fNonWrapping = true) (hz : hasFlag flags fParseZlib = true)
+    (hstop : hasFlag flags fStopOnBlockBoundary = false)
+    (hspec : Spec.zlibSpec (out.extract 0 0) maxDist (#[] ++ catChunks ((c, g) :: calls)) true = .accept zr)
+    (hroom : 0 + zr.inner.out.size ≤ min (0 + (0 + lastGrant ((c, g) :: calls) - 0)) out.size)
+    (hmono : grantsMono ((c, g) :: calls))
+    (hsus : ∀ r ∈ (runCalls flags 0 {} out 0 #[] ((c, g) :: calls)).dropLast, suspended r)
+    (last : Res) (hlast : (runCalls flags 0 {} out 0 #[] ((c, g) :: calls)).getLast? = some last) :
+    last.status = stDone ∧
+    sumWritten (runCalls flags 0 {} out 0 #[] ((c, g) :: calls)) = zr.inner.out.size ∧
+    sumConsumed (runCalls flags 0 {} out 0 #[] ((c, g) :: calls)) = zr.bytesUsed ∧
+    (∀ i, i < zr.inner.out.size → last.out[0 + i]? = zr.inner.out[i]?) := by
+  have hgeo : badGeometry flags out.size 0 = false := by
+    simp [badGeometry, hflat]
+  obtain ⟨h1, h2, h3, h4, _⟩ := any_number_of_calls_equal_one_call flags 0 calls {} out 0 #[] c g Bnd_fresh hgeo hmono hsus last hlast
+  obtain ⟨o1, o2, o3, o4⟩ := C03.valid_zlib_stream_decodes_one_shot {} (#[] ++ catChunks ((c, g) :: calls)) out 0
+    (0 + lastGrant ((c, g) :: calls) - 0) flags maxDist zr rfl ⟨rfl, rfl, rfl⟩ hflat hz hstop (Nat.zero_le _) hspec hroom
   refine ⟨by rw [← h1]; exact o1, by rw [← h3]; exact o2, ?_, fun i hi => by rw [← h2]; exact o4 i hi⟩
   rw [← h4 (by rw [o1]; decide)]; exact o3
 
